@@ -42,8 +42,14 @@ SigCases(zzdummy) ==
   LET cells == {<<f, args>> : f \in {FnNames[i] : i \in DOMAIN FnNames}, args \in UNION {[1..n -> ClassSet] : n \in 0..MAXAR}}
       ok == SetToSeq({c \in cells : Len(c[2]) \in Arities(c[1])})
       unk == SetToSeq(UNION {[1..n -> ClassSet] : n \in 0..2})
+      \* by-functions: the expression reference's result type per element, uniform and mixed, arrays of 1 and 2 elements
+      elems == {JNull, JTrue, JInt(1), JStr(<<97>>), JArr(<<>>), ObjA}
+      byArrs == SetToSeq({JArr(xs) : xs \in UNION {[1..n -> elems] : n \in 1..2}})
+      byFns == <<"sort_by", "max_by", "min_by">>
   IN [i \in DOMAIN ok |-> Case("sig", NameCps(ok[i][1]), ok[i][2], IOEnv.VIA)]
      \o [i \in DOMAIN unk |-> Case("sig", Unknown, unk[i], IOEnv.VIA)]
+     \o [x \in 1..(Len(byArrs) * 3) |-> Case("sig", NameCps(byFns[((x - 1) % 3) + 1]), <<byArrs[((x - 1) \div 3) + 1], JExpref(AIdentity)>>, IOEnv.VIA)]
+     \o [x \in 1..Len(byArrs) |-> Case("sig", NameCps("map"), <<JExpref(AIdentity), byArrs[x]>>, IOEnv.VIA)]
 
 (* ---------- MODE val ---------- *)
 Seqs(S, n) == UNION {[1..m -> S] : m \in 0..n}
